@@ -181,6 +181,7 @@ class MediaInfo(HTMLHandlerBase):
                 status = 404
         if result["error"] is None:
             result.update(mf.toJSON())
+            mf.clear_timing_reference()
             models.db.session.delete(mf)
             models.db.session.commit()
             result["deleted"] = mfid
